@@ -3,6 +3,7 @@ import PvModel.Loop
 import PvModel.Utils
 import PvModel.Pool
 import PvModel.Accept
+import PvModel.PopExp
 /-! Driver handlers for the selection helpers / combinators (`sel.*`) and the optimise loop (`loop.*`). -/
 open Lean Proto
 
@@ -51,6 +52,14 @@ def handleSel (op : String) (j : Json) : Except String Json := do
   | "sel.greedyPop" =>
     let new ← getPop (← field j "new")
     .ok (rExcept rTags (greedyPopulation pop new))
+  | "sel.group" =>
+    let ps ← getNat (← field j "ps")
+    let ng ← getNat (← field j "nGroups")
+    let na ← getNat (← field j "nAgents")
+    let wr ← match j.getObjVal? "withResidual" with | .ok (.bool b) => pure b | _ => pure true
+    .ok (match groupPopulation pop ps ng na wr with
+      | some gs => rList rTags gs
+      | none => Json.mkObj [("err", "ZeroDivisionError")])
   | "sel.extendTrim" =>
     let new ← getPop (← field j "new")
     .ok (rTags (extendTrim pop new n))
